@@ -143,6 +143,9 @@ def _f_scalar(spec, z, perms):
             m = len(p)
             val += math.fsum(math.dist(cities[p[i] % len(cities)], cities[p[(i + 1) % m] % len(cities)])
                              for i in range(m))
+    pen = spec.get("penalty")
+    if pen and n > pen["axis"] and (z[pen["axis"]] > pen["thr"]) == (pen.get("side", "above") == "above"):
+        val = float(pen["value"])          # "inf" / "-inf": an infeasible region penalised with the worst value
     if spec.get("negate"):
         val = -val
     return val
